@@ -234,6 +234,10 @@ def run(chk):
 
     chk.rule('C14-G', 'names that address no child are refused (ChildNotFound / ChildNotValid) under the same conditions as in the reviewed tree')
     from . import guardrules
+    chk.rule('C14-I', 'a text is accepted as a positional index only in its canonical spelling: the predicate that tries int() on it also '
+                      'pins the spelling down (children are looked up by the canonical <prefix>_<i>)')
+    from . import codelemmas as _cl
+    _cl.conversion_as_validator(chk, c, 'C14-I')
     ng_ = guardrules.check(chk, c, 'C14-G', ['core.Element.find_child_reference', 'core.SupportComplexDataType.find_child_reference', 'core.Field.find_child_reference', 'core.Segment.find_child_reference', 'core.Group.find_child_reference', 'core.Message.find_child_reference', 'core.Field._do_traversal', 'core._valid_child_name', 'core.ElementList.create_element'])
     chk.floor('refusal predicates compared (C14-G)', ng_, 1)
 
